@@ -28,7 +28,7 @@ def parseCol (s : String) : Option ColAlph :=
     | fund :: ambs =>
       if fund.isEmpty then none else
       match ambs.mapM (fun a => match a.toList with | c :: ms => some (c, ms) | [] => none) with
-      | some amb => some (.custom gm fund.toList amb)
+      | some amb => if (ColAlph.custom gm fund.toList amb).wf then some (.custom gm fund.toList amb) else none
       | none => none
   if s.startsWith "cg=" then custom true (s.drop 3).toString
   else if s.startsWith "cn=" then custom false (s.drop 3).toString
@@ -42,16 +42,25 @@ def rowOf (alph : String) (g : Bool) (cs : List Char) : Option Row :=
     | none => none
   else rowOfSymbols alph g cs
 
-def parseRows (alph : String) (g : Bool) : List String → Option Matrix
+def parseRowSyms : List String → Option (List (Nat × List Char))
   | [] => some []
   | bit :: syms :: rest =>
-    match bit.toNat?, parseSyms syms with
-    | some b, some cs =>
-      match rowOf alph g cs, parseRows alph g rest with
-      | some row, some m => some ((b, row) :: m)
-      | _, _ => none
-    | _, _ => none
+    match bit.toNat?, parseSyms syms, parseRowSyms rest with
+    | some b, some cs, some r => some ((b, cs) :: r)
+    | _, _, _ => none
   | _ => none
+
+/-- the matrix of a scoring call: column alphabets (a fixed alphabet = that table for every column) and `matrixOf` -/
+def parseRows (alph : String) (g : Bool) (toks : List String) : Option Matrix :=
+  match parseRowSyms toks with
+  | none => none
+  | some rows =>
+    let cols : Option (List ColAlph) :=
+      if alph.startsWith "cols:" then ((alph.drop 5).toString.splitOn ";").mapM parseCol
+      else some (List.replicate (match rows with | [] => 0 | (_, cs) :: _ => cs.length) (.table alph))
+    match cols with
+    | none => none
+    | some cols => matrixOf cols g rows
 
 def parseWeights (s : String) : Option (Option (List Nat)) :=
   if s == "-" then some none
